@@ -195,8 +195,16 @@ impl Vm {
   pub(super) fn queue_blocked_fiber(&mut self, mut waiter: Ref<ChannelWaiter>) {
     match waiter.get_waiter_mut::<Ref<Fiber>>() {
       Some(fiber) => {
+        let mut fiber = *fiber;
+
+        // a stale waiter entry can name the running fiber, a finished fiber
+        // or one that is already waiting in the run queue
+        if fiber == self.fiber || fiber.is_complete() || self.fiber_queue.contains(&fiber) {
+          return;
+        }
+
         fiber.unblock();
-        self.fiber_queue.push_back(*fiber)
+        self.fiber_queue.push_back(fiber)
       },
       None => self.internal_error("Unable to find fiber"),
     }
